@@ -352,6 +352,8 @@ fn acc_of(a: usize) -> crate::feedback::Accumulation {
 fn post_of(net: &crate::network::Network, j: usize, x: &Tensor) -> Tensor {
     match &net.layers[j] { crate::network::Layer::Dense(l) => l.forward(x).1, _ => panic!("dense layers only") }
 }
+/// the thorough tier enlarges every grid (`VERIF_GRID=thorough`, set by ./check --tier thorough)
+fn big() -> bool { std::env::var("VERIF_GRID").map(|v| v == "thorough").unwrap_or(false) }
 /// equal up to rounding (relative 1e-4, absolute 1e-6): a re-association of a float sum must not count as a violation of a property about real-valued sums
 fn close(a: f32, b: f32) -> bool { (a.is_nan() && b.is_nan()) || a == b || (a - b).abs() <= 1e-6 + 1e-4 * a.abs().max(b.abs()) }
 fn close_all(a: &[f32], b: &[f32]) -> bool { a.len() == b.len() && a.iter().zip(b.iter()).all(|(x, y)| close(*x, *y)) }
@@ -417,7 +419,7 @@ pub fn dispatch_loopback(cmd: &str, name: &str, arg: &str) -> Option<String> {
         });
     }
     let mut tried = 0usize;
-    for n in 1..=4usize { for outof in 0..n { for into in 0..=outof { for k in 1..=3usize { for s in [false, true] { for acc in 0..5usize { for seed in 0..3u64 {
+    for n in 1..=(if big() { 5 } else { 4 }) as usize { for outof in 0..n { for into in 0..=outof { for k in 1..=(if big() { 4 } else { 3 }) as usize { for s in [false, true] { for acc in 0..5usize { for seed in 0..(if big() { 6 } else { 3 }) as u64 {
         tried += 1;
         if let Err(e) = one(n, into, outof, k, s, acc, seed) {
             return Some(format!("{{\"failed\":true,\"tried\":{},\"input\":{},\"detail\":{:?}}}", tried, fmt(n, into, outof, k, s, acc, seed), e));
@@ -587,7 +589,7 @@ pub fn dispatch_schedule(cmd: &str, name: &str, arg: &str) -> Option<String> {
         });
     }
     let mut tried = 0usize;
-    for n in 1..=5usize { for b in 1..=6usize { for e in 1..=3i32 { for seed in 0..2u64 {
+    for n in 1..=(if big() { 9 } else { 5 }) as usize { for b in 1..=(if big() { 10 } else { 6 }) as usize { for e in 1..=(if big() { 4 } else { 3 }) as i32 { for seed in 0..(if big() { 4 } else { 2 }) as u64 {
         tried += 1;
         if let Err(err) = one(n, b, e, seed) { return Some(format!("{{\"failed\":true,\"tried\":{},\"input\":{},\"detail\":{:?}}}", tried, fmt(n, b, e, seed), err)); }
     }}}}
@@ -655,7 +657,7 @@ pub fn dispatch_validate(cmd: &str, name: &str, arg: &str) -> Option<String> {
         });
     }
     let mut tried = 0usize;
-    for n in [1usize, 2, 3, 63, 64, 65, 129] { for sm in [false, true] { for outs in 1..=3usize { for seed in 0..2u64 {
+    for n in (if big() { vec![1usize, 2, 3, 31, 63, 64, 65, 127, 128, 129, 200] } else { vec![1usize, 2, 3, 63, 64, 65, 129] }) { for sm in [false, true] { for outs in 1..=(if big() { 4 } else { 3 }) as usize { for seed in 0..(if big() { 5 } else { 2 }) as u64 {
         if sm && outs == 1 { continue; }
         tried += 1;
         if let Err(e) = one(n, sm, outs, seed) { return Some(format!("{{\"failed\":true,\"tried\":{},\"input\":{},\"detail\":{:?}}}", tried, fmt(n, sm, outs, seed), e)); }
@@ -720,7 +722,7 @@ pub fn dispatch_feedback(cmd: &str, name: &str, arg: &str) -> Option<String> {
         });
     }
     let mut tried = 0usize;
-    for l in 1..=3usize { for n in 1..=4usize { for i in [false, true] { for o in [false, true] { for a in 0..5usize { for s in 0..2u64 {
+    for l in 1..=(if big() { 4 } else { 3 }) as usize { for n in 1..=(if big() { 6 } else { 4 }) as usize { for i in [false, true] { for o in [false, true] { for a in 0..5usize { for s in 0..(if big() { 5 } else { 2 }) as u64 {
         tried += 1;
         if let Err(e) = one(l, n, i, o, a, s) { return Some(format!("{{\"failed\":true,\"tried\":{},\"input\":{},\"detail\":{:?}}}", tried, fmt(l, n, i, o, a, s), e)); }
     }}}}}}
@@ -768,7 +770,7 @@ pub fn dispatch_reshape(cmd: &str, name: &str, arg: &str) -> Option<String> {
         return Some(match one(a) { Ok(()) => format!("{{\"failed\":false,\"input\":{}}}", fmt(a)), Err(e) => format!("{{\"failed\":true,\"input\":{},\"detail\":{:?}}}", fmt(a), e) });
     }
     let mut tried = 0usize;
-    for c in 1..=3usize { for h in 1..=3usize { for w in 1..=4usize { for c2 in 1..=3usize { for h2 in 1..=4usize { for w2 in 1..=4usize {
+    for c in 1..=(if big() { 4 } else { 3 }) as usize { for h in 1..=(if big() { 4 } else { 3 }) as usize { for w in 1..=(if big() { 5 } else { 4 }) as usize { for c2 in 1..=(if big() { 4 } else { 3 }) as usize { for h2 in 1..=(if big() { 5 } else { 4 }) as usize { for w2 in 1..=(if big() { 5 } else { 4 }) as usize {
         tried += 1;
         let a = [c, h, w, c2, h2, w2];
         if let Err(e) = one(a) { return Some(format!("{{\"failed\":true,\"tried\":{},\"input\":{},\"detail\":{:?}}}", tried, fmt(a), e)); }
@@ -855,7 +857,7 @@ pub fn objective_one(which: usize, triple: bool, n: usize, seed: u64) -> Result<
     if which == 0 && p.iter().zip(t.iter()).any(|(a, b)| (a - b).abs() < 0.05) { return Ok(()); }     // AE: stay away from the kink
     let (_, g) = f.loss(&mk(&p), &mk(&t));
     let g = g.get_flat();
-    let h = 1e-2f32;
+    let h = 2e-3f32;   // truncation error h^2/6 f''' and f32 rounding of the loss both stay below the tolerance on the grid
     for i in 0..n {
         let mut a = p.clone(); a[i] += h;
         let mut b = p.clone(); b[i] -= h;
@@ -880,7 +882,7 @@ pub fn dispatch_objective(cmd: &str, name: &str, arg: &str) -> Option<String> {
         return Some(match one(a) { Ok(()) => format!("{{\"failed\":false,\"input\":{}}}", fmt(a)), Err(e) => format!("{{\"failed\":true,\"input\":{},\"detail\":{:?}}}", fmt(a), e) });
     }
     let mut tried = 0usize;
-    for w in 0..4u64 { for tr in 0..=1u64 { for n in 1..=4u64 { for s in 0..5u64 {
+    for w in 0..4u64 { for tr in 0..=1u64 { for n in 1..=(if big() { 8 } else { 4 }) as u64 { for s in 0..(if big() { 40 } else { 5 }) as u64 {
         tried += 1;
         let a = [w, tr, n, s];
         if let Err(e) = one(a) { return Some(format!("{{\"failed\":true,\"tried\":{},\"input\":{},\"detail\":{:?}}}", tried, fmt(a), e)); }
@@ -990,7 +992,7 @@ pub fn dispatch_netgrad(cmd: &str, name: &str, arg: &str) -> Option<String> {
             Err(e) => format!("{{\"failed\":true,\"input\":{{\"architecture\":{},\"seed\":{}}},\"detail\":{:?}}}", v[0], v[1], e) });
     }
     let mut tried = 0usize;
-    for a in 0..5usize { for s in 0..4u64 {
+    for a in 0..5usize { for s in 0..(if big() { 40 } else { 4 }) as u64 {
         tried += 1;
         if let Err(e) = one(a, s) { return Some(format!("{{\"failed\":true,\"tried\":{},\"input\":{{\"architecture\":{},\"seed\":{}}},\"detail\":{:?}}}", tried, a, s, e)); }
     }}
@@ -1064,7 +1066,7 @@ pub fn dispatch_dropout(cmd: &str, name: &str, arg: &str) -> Option<String> {
             Err(e) => format!("{{\"failed\":true,\"input\":{{\"architecture\":{},\"seed\":{}}},\"detail\":{:?}}}", v[0], v[1], e) });
     }
     let mut tried = 0usize;
-    for a in 0..4usize { for s in 0..6u64 {
+    for a in 0..4usize { for s in 0..(if big() { 40 } else { 6 }) as u64 {
         tried += 1;
         if let Err(e) = one(a, s) { return Some(format!("{{\"failed\":true,\"tried\":{},\"input\":{{\"architecture\":{},\"seed\":{}}},\"detail\":{:?}}}", tried, a, s, e)); }
     }}
@@ -1148,7 +1150,7 @@ pub fn dispatch_chain(cmd: &str, name: &str, arg: &str) -> Option<String> {
         return Some(match chain_one(v[0]) { Ok(_) => format!("{{\"failed\":false,\"input\":{{\"seed\":{}}}}}", v[0]), Err(e) => format!("{{\"failed\":true,\"input\":{{\"seed\":{}}},\"detail\":{:?}}}", v[0], e) });
     }
     let (mut tried, mut accepted) = (0usize, 0usize);
-    for s in 0..4000u64 {
+    for s in 0..(if big() { 40000 } else { 4000 }) as u64 {
         tried += 1;
         match chain_one(s) { Ok(Some(_)) => accepted += 1, Ok(None) => {}, Err(e) => return Some(format!("{{\"failed\":true,\"tried\":{},\"input\":{{\"seed\":{}}},\"detail\":{:?}}}", tried, s, e)) }
     }
@@ -1192,7 +1194,7 @@ pub fn dispatch_stopping(cmd: &str, name: &str, arg: &str) -> Option<String> {
         return Some(match stopping_one(a[0] as i32, a[1] as i32, a[2], a[3]) { Ok(()) => format!("{{\"failed\":false,\"input\":{}}}", fmt(a)), Err(e) => format!("{{\"failed\":true,\"input\":{},\"detail\":{:?}}}", fmt(a), e) });
     }
     let mut tried = 0usize;
-    for tol in 1..=3u64 { for ep in [1u64, 2, 5, 9] { for k in 0..4u64 { for s in 0..6u64 {
+    for tol in 1..=(if big() { 5 } else { 3 }) as u64 { for ep in [1u64, 2, 5, 9, 14] { for k in 0..4u64 { for s in 0..(if big() { 30 } else { 6 }) as u64 {
         tried += 1;
         let a = [tol, ep, k, s];
         if let Err(e) = stopping_one(tol as i32, ep as i32, k, s) { return Some(format!("{{\"failed\":true,\"tried\":{},\"input\":{},\"detail\":{:?}}}", tried, fmt(a), e)); }
